@@ -73,7 +73,7 @@ def dfrs : Cmd → List Mutex
 
 /-- `Run env c h obs h' t`: executing `c` with the locks `h` held performs the accesses `obs` (site, locks held
     there), ends holding `h'`, with outcome `t`. -/
-inductive Run (env : List Cmd) : Cmd → LS → List (Nat × LS) → LS → Out → Prop where
+inductive Run (env : Nat → Option Cmd) : Cmd → LS → List (Nat × LS) → LS → Out → Prop where
   | skip {h} : Run env .skip h [] h .normal
   | acq {x h} : Run env (.acq x) h [] (x :: h) .normal
   | rel {m h} : Run env (.rel m) h [] (dropM m h) .normal
@@ -94,7 +94,7 @@ inductive Run (env : List Cmd) : Cmd → LS → List (Nat × LS) → LS → Out 
       Run env (.loop a) h₁ o₂ h₂ t → Run env (.loop a) h (o₁ ++ o₂) h₂ t
   | loopX {a h o₁ h₁ t} : Run env a h o₁ h₁ t → t ≠ .normal → Run env (.loop a) h o₁ h₁ t
   | spawn {a h o h' t} : Run env a [] o h' t → Run env (.spawn a) h o h .normal
-  | call {f body h o h₁ t} : env[f]? = some body → Run env body h o h₁ t →
+  | call {f body h o h₁ t} : env f = some body → Run env body h o h₁ t →
       Run env (.call f) h o (dropAll (dfrs body) h₁) .normal
 
 /-! ## the analysis -/
@@ -166,29 +166,34 @@ def relSet (relOf : Nat → List Mutex) : Cmd → List Mutex
   | .block a => relSet relOf a
   | _ => []
 
-def getL (l : List (List Nat)) (i : Nat) : List Nat := l.getD i []
-def getLS (l : List LS) (i : Nat) : LS := l.getD i []
+/-! binary-heap indexed tries: table lookups that the kernel evaluates in O(log n) -/
 
-/-- `relOf` covers everything each body may release -/
-def relOkB (env : List Cmd) (rel : List (List Mutex)) : Bool :=
-  (List.range env.length).all fun f =>
-    match env[f]? with
-    | some body => (relSet (getL rel) body).all fun m => (getL rel f).contains m
-    | none => true
+inductive Trie (α : Type) where
+  | nil
+  | node (v : Option α) (z o : Trie α)
+deriving Repr
+
+def Trie.get {α : Type} : Trie α → Nat → Option α
+  | .nil, _ => none
+  | .node v z o, n => if n = 0 then v else if (n - 1) % 2 = 0 then z.get ((n - 1) / 2) else o.get ((n - 1) / 2)
+
+def getL (t : Trie (List Mutex)) (i : Nat) : List Mutex := (t.get i).getD []
+def getLS (t : Trie LS) (i : Nat) : LS := (t.get i).getD []
+
+/-- the program: numbered bodies; `envOf` is its lookup function (used in statements, never evaluated) -/
+def envOf (fs : List (Nat × Cmd)) : Nat → Option Cmd := fun f => (fs.find? fun p => p.1 == f).map (·.2)
+
+/-- `rel` covers everything each body may release -/
+def relOkB (fs : List (Nat × Cmd)) (rel : Trie (List Mutex)) : Bool :=
+  fs.all fun p => (relSet (getL rel) p.2).all fun m => (getL rel p.1).contains m
 
 /-- every call site (found when analysing each body from its entry lockset) holds the callee's entry lockset -/
-def entryOkB (env : List Cmd) (rel : List (List Mutex)) (entry : List LS) : Bool :=
-  (List.range env.length).all fun g =>
-    match env[g]? with
-    | some body => (an (getL rel) body (getLS entry g)).calls.all fun c => subB (getLS entry c.1) c.2
-    | none => true
+def entryOkB (fs : List (Nat × Cmd)) (rel : Trie (List Mutex)) (entry : Trie LS) : Bool :=
+  fs.all fun p => (an (getL rel) p.2 (getLS entry p.1)).calls.all fun c => subB (getLS entry c.1) c.2
 
 /-- all (site, lockset) rows of the program -/
-def allRows (env : List Cmd) (rel : List (List Mutex)) (entry : List LS) : List (Nat × LS) :=
-  (List.range env.length).flatMap fun g =>
-    match env[g]? with
-    | some body => (an (getL rel) body (getLS entry g)).rows
-    | none => []
+def allRows (fs : List (Nat × Cmd)) (rel : Trie (List Mutex)) (entry : Trie LS) : List (Nat × LS) :=
+  fs.flatMap fun p => (an (getL rel) p.2 (getLS entry p.1)).rows
 
 /-- the real locks of a table row: tokens (annotated ordering protocols) are not locks -/
 def realLocks (tokens : List Mutex) (a : Access) : LS := a.locks.filter fun x => !tokens.contains x.m
@@ -197,5 +202,17 @@ def realLocks (tokens : List Mutex) (a : Access) : LS := a.locks.filter fun x =>
 def justifiedB (rows : List (Nat × LS)) (tokens : List Mutex) (a : Access) : Bool :=
   (realLocks tokens a).isEmpty ||
     ((rows.any fun r => r.1 == a.site) && (rows.all fun r => r.1 != a.site || subB (realLocks tokens a) r.2))
+
+/-- the analysis rows, indexed by site in a trie (an untrusted hint, checked against `allRows` by `rowsIndexedB`) -/
+def rowsIndexedB (rows : List (Nat × LS)) (t : Trie LS) : Bool := rows.all fun r => decide (t.get r.1 = some r.2)
+
+/-- both whole-program checks in one pass over the bodies (one evaluation of the analysis per body) -/
+def checkAllB (fs : List (Nat × Cmd)) (rel : Trie (List Mutex)) (entry : Trie LS) (t : Trie LS) : Bool :=
+  fs.all fun p =>
+    let r := an (getL rel) p.2 (getLS entry p.1)
+    (r.calls.all fun c => subB (getLS entry c.1) c.2) && (r.rows.all fun x => decide (t.get x.1 = some x.2))
+
+def justT (t : Trie LS) (tokens : List Mutex) (a : Access) : Bool :=
+  (realLocks tokens a).isEmpty || (match t.get a.site with | some L => subB (realLocks tokens a) L | none => false)
 
 end KV.LockProg
